@@ -181,6 +181,51 @@ def stringFormOK (quoted : Bool) (b : UInt8) : OctetForm → Bool
   | .esc => !isDigitOctet b
   | .dec => true
 
+/-! ### gaps between fields and line ends (RFC 1035 §5.1: blanks, parentheses, comments) -/
+
+/-- one element of the space between two fields: a blank, a parenthesis, or — inside
+    parentheses — the end of a line with an optional comment -/
+inductive GapItem where
+  | blank (tab : Bool)
+  | openParen
+  | closeParen
+  | newline (comment : List UInt8) (crlf : Bool)
+  deriving Repr, DecidableEq, Inhabited
+
+abbrev PGap := List GapItem
+
+/-- a line ending: LF or CRLF -/
+def eolText (crlf : Bool) : List UInt8 := if crlf then [13, 10] else [10]
+
+def gapItemText : GapItem → List UInt8
+  | .blank tab => [if tab then 9 else 32]
+  | .openParen => [40]
+  | .closeParen => [41]
+  | .newline c crlf => c ++ eolText crlf
+
+def gapText (g : PGap) : List UInt8 := g.flatMap gapItemText
+
+/-- line ends inside a gap -/
+def gapLines : PGap → Nat
+  | [] => 0
+  | .newline .. :: g => gapLines g + 1
+  | _ :: g => gapLines g
+
+/-- "inside parentheses" after a gap, given the state before it; `none` if parentheses nest, one
+    closes that was not opened, or a line ends outside parentheses (that ends the record) -/
+def gapRun : Bool → PGap → Option Bool
+  | p, [] => some p
+  | p, .blank _ :: g => gapRun p g
+  | false, .openParen :: g => gapRun true g
+  | true, .openParen :: _ => none
+  | true, .closeParen :: g => gapRun false g
+  | false, .closeParen :: _ => none
+  | true, .newline .. :: g => gapRun true g
+  | false, .newline .. :: _ => none
+
+/-- the `i`-th gap of a list; a single blank if the list is shorter -/
+def gapAt (gs : List PGap) (i : Nat) : PGap := gs.getD i [.blank false]
+
 /-! ### RDATA as written -/
 
 inductive PRdata where
@@ -213,31 +258,57 @@ def kindOK (cls ty : Nat) : PRdata → Bool
   | .txt .. => ty == 16
   | .hinfo .. => ty == 13
 
-/-- the RDATA field(s) as text; `sep` separates the fields -/
-def rdataText (sep : List UInt8) : PRdata → List UInt8
-  | .generic rd => 92 :: 35 :: genericTail sep rd
+/-- the second and later strings of TXT, each after its gap -/
+def txtRest (G : Nat → PGap) : Nat → List PString → List UInt8
+  | _, [] => []
+  | i, x :: xs => gapText (G i) ++ (stringText x ++ txtRest G (i + 1) xs)
+
+/-- the RDATA field(s) as text; `G i` is the gap after the `i`-th field -/
+def rdataText (G : Nat → PGap) : PRdata → List UInt8
+  | .generic rd =>
+    92 :: 35 :: (gapText (G 0) ++ (decimal rd.length ++ (if rd.isEmpty then [] else gapText (G 1) ++ renderHex rd)))
   | .a a b c d => decimal a ++ 46 :: (decimal b ++ 46 :: (decimal c ++ 46 :: decimal d))
   | .name n => nameText n
-  | .mx p n => decimal p ++ (sep ++ nameText n)
+  | .mx p n => decimal p ++ (gapText (G 0) ++ nameText n)
   | .soa m r s1 s2 s3 s4 s5 =>
-    nameText m ++ (sep ++ (nameText r ++ (sep ++ (decimal s1 ++ (sep ++ (decimal s2 ++ (sep ++ (decimal s3 ++
-      (sep ++ (decimal s4 ++ (sep ++ decimal s5)))))))))))
-  | .minfo r e => nameText r ++ (sep ++ nameText e)
-  | .srv p w port n => decimal p ++ (sep ++ (decimal w ++ (sep ++ (decimal port ++ (sep ++ nameText n)))))
-  | .txt s ss => stringText s ++ ss.flatMap fun x => sep ++ stringText x
-  | .hinfo c o => stringText c ++ (sep ++ stringText o)
+    nameText m ++ (gapText (G 0) ++ (nameText r ++ (gapText (G 1) ++ (decimal s1 ++ (gapText (G 2) ++
+      (decimal s2 ++ (gapText (G 3) ++ (decimal s3 ++ (gapText (G 4) ++ (decimal s4 ++ (gapText (G 5) ++
+        decimal s5)))))))))))
+  | .minfo r e => nameText r ++ (gapText (G 0) ++ nameText e)
+  | .srv p w port n =>
+    decimal p ++ (gapText (G 0) ++ (decimal w ++ (gapText (G 1) ++ (decimal port ++ (gapText (G 2) ++ nameText n)))))
+  | .txt s ss => stringText s ++ txtRest G 0 ss
+  | .hinfo c o => stringText c ++ (gapText (G 0) ++ stringText o)
 
-/-- newlines inside the RDATA text -/
-def rdataLines : PRdata → Nat
-  | .generic _ => 0
+/-- number of gaps inside the RDATA -/
+def rdataGaps : PRdata → Nat
+  | .generic rd => if rd.isEmpty then 1 else 2
+  | .a .. => 0
+  | .name _ => 0
+  | .mx .. => 1
+  | .soa .. => 6
+  | .minfo .. => 1
+  | .srv .. => 3
+  | .txt _ ss => ss.length
+  | .hinfo .. => 1
+
+def txtLines (G : Nat → PGap) : Nat → List PString → Nat
+  | _, [] => 0
+  | i, x :: xs => gapLines (G i) + stringLines x + txtLines G (i + 1) xs
+
+/-- line ends inside the RDATA text: in names, strings and gaps -/
+def rdataLines (G : Nat → PGap) : PRdata → Nat
+  | .generic rd => gapLines (G 0) + (if rd.isEmpty then 0 else gapLines (G 1))
   | .a .. => 0
   | .name n => nameLines n
-  | .mx _ n => nameLines n
-  | .soa m r .. => nameLines m + nameLines r
-  | .minfo r e => nameLines r + nameLines e
-  | .srv _ _ _ n => nameLines n
-  | .txt s ss => stringLines s + (ss.map stringLines).sum
-  | .hinfo c o => stringLines c + stringLines o
+  | .mx _ n => gapLines (G 0) + nameLines n
+  | .soa m r .. =>
+    nameLines m + gapLines (G 0) + nameLines r + gapLines (G 1) + gapLines (G 2) + gapLines (G 3) + gapLines (G 4) +
+      gapLines (G 5)
+  | .minfo r e => nameLines r + gapLines (G 0) + nameLines e
+  | .srv _ _ _ n => gapLines (G 0) + gapLines (G 1) + gapLines (G 2) + nameLines n
+  | .txt s ss => stringLines s + txtLines G 0 ss
+  | .hinfo c o => stringLines c + gapLines (G 0) + stringLines o
 
 /-- the RDATA denoted (RFC 1035 §3.3, RFC 2782 wire formats); `none` if a name cannot be completed -/
 def rdataWire (origin : Option (List UInt8)) : PRdata → Option (List UInt8)
@@ -259,16 +330,18 @@ def rdataWire (origin : Option (List UInt8)) : PRdata → Option (List UInt8)
 
 /-! ### records and files — the presentation subset of `C23_records_partial`
 
-  One entry per line.  Records: `[owner] [ttl] [class] type rdata [;comment]`, fields separated
-  by runs of blanks.  Owner: an absolute name, a relative name (completed with the origin), `@`
+  One entry per line — or, with parentheses, several.  Records: `[owner] [ttl] [class] type rdata
+  [;comment]`.  The fields before the RDATA are separated by runs of blanks; the gaps before,
+  inside and after the RDATA are any mix of blanks, `(`, `)` and — inside parentheses — line ends
+  (LF or CRLF) with optional comments.  Lines end with LF or CRLF.  Owner: an absolute name, a relative name (completed with the origin), `@`
   (the origin) — names in any mix of octet forms — or omitted (leading blanks: same owner as
   before).  TTL and class written (decimal; mnemonic in any case or `CLASSnnn`; in either order)
   or omitted.  Type: mnemonic in any case or `TYPEnnn`.  RDATA: the RFC 3597 form `\# len hex`
   for any class and type, or the typed syntax of A, NS/MD/MF/CNAME/MB/MG/MR/PTR, MX, SOA, MINFO,
   SRV, TXT, HINFO (names relative / absolute / `@`; character-strings quoted or unquoted with
   escapes).  Directives: `$ORIGIN <absolute name>`, `$TTL <decimal>`.  Blank and comment-only
-  lines.  Not in this subset (see C23.lean): AAAA, WKS and Chaosnet A typed syntax, parentheses,
-  CRLF, a last line without newline. -/
+  lines.  Not in this subset (see C23.lean): AAAA, WKS and Chaosnet A typed syntax, parentheses
+  before the type field or in directives, a last line without newline. -/
 
 inductive POwner where
   | same
@@ -282,16 +355,18 @@ structure PRecord where
   clsFirst : Bool          -- class written before the TTL (matters when both are written)
   ty : PCode
   rdata : PRdata
-  sep : List UInt8
-  trail : List UInt8
+  sep : List UInt8         -- the blanks between the fields up to the type
+  gaps : List PGap         -- gap 0: between type and RDATA; gap i+1: after the i-th RDATA field
+  tail : PGap              -- after the last field (closes the parentheses, if open)
   comment : List UInt8
+  crlf : Bool
   deriving Repr, Inhabited
 
 inductive PEntry where
-  | blank (ws comment : List UInt8)
+  | blank (ws comment : List UInt8) (crlf : Bool)
   | record (p : PRecord)
-  | origin (ls : List PLabel) (sep trail comment : List UInt8)
-  | ttl (n : Nat) (sep trail comment : List UInt8)
+  | origin (ls : List PLabel) (sep trail comment : List UInt8) (crlf : Bool)
+  | ttl (n : Nat) (sep trail comment : List UInt8) (crlf : Bool)
   deriving Repr, Inhabited
 
 def ownerText : POwner → List UInt8
@@ -310,15 +385,16 @@ def ttlClassText (sep : List UInt8) (ttl : Option Nat) (cls : Option PCode) (cls
 
 def renderRecord (p : PRecord) : List UInt8 :=
   ownerText p.owner ++ p.sep ++ ttlClassText p.sep p.ttl p.cls p.clsFirst ++
-  typeText p.ty ++ p.sep ++ rdataText p.sep p.rdata ++ (p.trail ++ p.comment ++ [10])
+  typeText p.ty ++ gapText (gapAt p.gaps 0) ++ rdataText (fun i => gapAt p.gaps (i + 1)) p.rdata ++
+  (gapText p.tail ++ (p.comment ++ eolText p.crlf))
 
 def renderEntry : PEntry → List UInt8
-  | .blank ws comment => ws ++ comment ++ [10]
+  | .blank ws comment crlf => ws ++ comment ++ eolText crlf
   | .record p => renderRecord p
-  | .origin ls sep trail comment =>
-    [36, 79, 82, 73, 71, 73, 78] ++ sep ++ renderAbsName ls ++ trail ++ comment ++ [10]   -- `$ORIGIN`
-  | .ttl n sep trail comment =>
-    [36, 84, 84, 76] ++ sep ++ decimal n ++ trail ++ comment ++ [10]                       -- `$TTL`
+  | .origin ls sep trail comment crlf =>
+    [36, 79, 82, 73, 71, 73, 78] ++ sep ++ renderAbsName ls ++ trail ++ comment ++ eolText crlf   -- `$ORIGIN`
+  | .ttl n sep trail comment crlf =>
+    [36, 84, 84, 76] ++ sep ++ decimal n ++ trail ++ comment ++ eolText crlf                       -- `$TTL`
 
 def renderFile (es : List PEntry) : List UInt8 := es.flatMap renderEntry
 
@@ -351,7 +427,9 @@ def ownerLines : POwner → Nat
   | .named n => nameLines n
 
 /-- the lines a record's text occupies beyond the first -/
-def recordLines (p : PRecord) : Nat := ownerLines p.owner + rdataLines p.rdata
+def recordLines (p : PRecord) : Nat :=
+  ownerLines p.owner + gapLines (gapAt p.gaps 0) + rdataLines (fun i => gapAt p.gaps (i + 1)) p.rdata +
+    gapLines p.tail
 
 /-- the owner a record line denotes -/
 def ownerOf (c : SCtx) (p : PRecord) : Option (List UInt8) :=
@@ -398,10 +476,10 @@ def denoteRecord (valid : Nat → Nat → List UInt8 → Bool) (c : SCtx) (line 
 /-- the records a file denotes, with their line numbers -/
 def denoteFile (valid : Nat → Nat → List UInt8 → Bool) : List PEntry → SCtx → Nat → Option (List SRecord)
   | [], _, _ => some []
-  | .blank _ _ :: es, c, line => denoteFile valid es c (line + 1)
-  | .origin ls _ _ _ :: es, c, line =>
+  | .blank _ _ _ :: es, c, line => denoteFile valid es c (line + 1)
+  | .origin ls _ _ _ _ :: es, c, line =>
     denoteFile valid es { c with origin := some (wireName (ls.map labelOctets)) } (line + labelLines ls + 1)
-  | .ttl n _ _ _ :: es, c, line => denoteFile valid es { c with defaultTtl := some (ttlValue n) } (line + 1)
+  | .ttl n _ _ _ _ :: es, c, line => denoteFile valid es { c with defaultTtl := some (ttlValue n) } (line + 1)
   | .record p :: es, c, line => do
     let (r, c') ← denoteRecord valid c line p
     let rest ← denoteFile valid es c' (line + recordLines p + 1)
